@@ -96,8 +96,25 @@ pub fn convert_cntrl_flow(
 }
 
 fn is_valid_in_ternary(then: &ASTTy, el: &ASTTy) -> bool {
-    !matches!(then.node, NodeTy::Block { .. } | NodeTy::Raise { .. })
-        && !matches!(el.node, NodeTy::Block { .. } | NodeTy::Raise { .. })
+    is_expression_arm(then) && is_expression_arm(el)
+}
+
+/// An arm of a conditional expression must itself be emitted as an expression.
+fn is_expression_arm(arm: &ASTTy) -> bool {
+    match &arm.node {
+        NodeTy::Block { .. }
+        | NodeTy::Raise { .. }
+        | NodeTy::Match { .. }
+        | NodeTy::Handle { .. }
+        | NodeTy::While { .. }
+        | NodeTy::For { .. }
+        | NodeTy::Return { .. } => false,
+        NodeTy::IfElse { then, el, .. } => match el {
+            Some(el) => arm.ty.is_some() && is_valid_in_ternary(then, el),
+            None => false,
+        },
+        _ => true,
+    }
 }
 
 #[cfg(test)]
